@@ -100,6 +100,8 @@ struct Cs {
     seen: std::collections::BTreeSet<usize>,
     seac: usize,
     done: bool,
+    /// code of the glyph being walked in the standard encoding (-1 = none): "self" of a seac operand
+    own_code: i64,
 }
 
 /// the field value that encodes the charstring number `v` in the number format `fmt` (see `Cs::stack`)
@@ -1526,7 +1528,8 @@ impl<'a> Walk<'a> {
                         for (k, part) in [(n - 1, "achar"), (n - 2, "bchar")] {
                             let t = cs.stack[k];
                             if t.2 > 0 {
-                                self.f(t.1, t.2, "index", &format!("{}.seac.{}", nm, part));
+                                let sv = if cs.own_code >= 0 { encode_cs_number(cs.own_code, t.3).unwrap_or(-1) } else { -1 };
+                                self.fr(t.1, t.2, "index", &format!("{}.seac.{}", nm, part), sv, -1);
                                 cs.seac += 1;
                             }
                         }
@@ -1635,8 +1638,10 @@ impl<'a> Walk<'a> {
                 privates.push(Some((v[v.len() - 1].max(0) as usize, v[v.len() - 2].max(0) as usize, "private".to_string())));
             }
         }
+        let mut charset_at: Option<usize> = if cff2 { None } else { Some(0) };
         if let Some(v) = arg(15) {
             if let Some(&c) = v.last() {
+                charset_at = Some(c.max(0) as usize);
                 if c > 2 {
                     let c = c as usize;
                     let fmt = self.u8(c).unwrap_or(0);
@@ -1782,7 +1787,7 @@ impl<'a> Walk<'a> {
                 }
             }
         };
-        let mut cs = Cs { cff2, gsubr_at, gcount, lsubr_at: 0, lcount: 0, stack: Vec::new(), stems: 0, wp: cff2, frames: Vec::new(), steps: 0, region_counts, vsindex: 0, emitted_top: 0, emitted_sub: 0, seen: std::collections::BTreeSet::new(), seac: 0, done: false };
+        let mut cs = Cs { cff2, gsubr_at, gcount, lsubr_at: 0, lcount: 0, stack: Vec::new(), stems: 0, wp: cff2, frames: Vec::new(), steps: 0, region_counts, vsindex: 0, emitted_top: 0, emitted_sub: 0, seen: std::collections::BTreeSet::new(), seac: 0, done: false, own_code: -1 };
         if cs_at > 0 {
             for g in outline_gids(n_glyphs.min(65535) as u16) {
                 let g = g as usize;
@@ -1800,6 +1805,42 @@ impl<'a> Walk<'a> {
                 cs.wp = cff2;
                 cs.steps = 0;
                 cs.done = false;
+                // code of the glyph in the standard encoding: SIDs 1..95 are the codes 32..126 in order
+                cs.own_code = match (cid, charset_at) {
+                    (false, Some(c)) => {
+                        let sid = if g == 0 {
+                            0
+                        } else if c == 0 {
+                            g
+                        } else if c <= 2 {
+                            0
+                        } else {
+                            match self.u8(c) {
+                                Some(0) => self.u16(c + 1 + 2 * (g - 1)).unwrap_or(0),
+                                Some(f) => {
+                                    let lw = if f == 1 { 1 } else { 2 };
+                                    let (mut first_g, mut q, mut sid) = (1usize, c + 1, 0usize);
+                                    while first_g <= g {
+                                        let (first, left) = match (self.u16(q), self.un(q + 2, lw)) {
+                                            (Some(a), Some(b)) => (a, b),
+                                            _ => break,
+                                        };
+                                        if g <= first_g + left {
+                                            sid = first + (g - first_g);
+                                            break;
+                                        }
+                                        first_g += left + 1;
+                                        q += 2 + lw;
+                                    }
+                                    sid
+                                }
+                                None => 0,
+                            }
+                        };
+                        if (1..=95).contains(&sid) { sid as i64 + 31 } else { -1 }
+                    }
+                    _ => -1,
+                };
                 self.cs_exec(a, b, &mut cs, &format!("charstring[{}]", g), 0);
                 if cs.emitted_sub >= 64 {
                     break;
@@ -1818,6 +1859,8 @@ impl<'a> Walk<'a> {
             for (k, kn) in [(0usize, "0"), (n.saturating_sub(1), "last")] {
                 if k < n {
                     self.fs(o + 2 + 12 * k, &[(2, "index", &format!("doc[{}].startGlyphID", kn)), (2, "index", &format!("doc[{}].endGlyphID", kn)), (4, "offset", &format!("doc[{}].svgDocOffset", kn)), (4, "length", &format!("doc[{}].svgDocLength", kn))]);
+                    // counted from the document list: self = the record itself read as a document, parent = the list
+                    self.refs(o + 2 + 12 * k + 4, (2 + 12 * k) as i64, 0);
                 }
             }
             if let Some(d0) = self.u32(o + 6) {
@@ -1832,6 +1875,8 @@ impl<'a> Walk<'a> {
             let b = 8 + 48 * k;
             let nm = format!("size[{}]", k);
             self.fs(b, &[(4, "offset", &format!("{}.indexSubTableArrayOffset", nm)), (4, "length", &format!("{}.indexTablesSize", nm)), (4, "count", &format!("{}.numberOfIndexSubTables", nm)), (4, "value", &format!("{}.colorRef", nm))]);
+            // counted from the start of the table: self = the BitmapSize record read as its own index sub-table array
+            self.refs(b, b as i64, 0);
             self.fs(b + 16, &[(1, "value", &format!("{}.hori.ascender", nm)), (1, "value", &format!("{}.hori.descender", nm)), (1, "value", &format!("{}.hori.widthMax", nm))]);
             self.fs(b + 40, &[(2, "index", &format!("{}.startGlyphIndex", nm)), (2, "index", &format!("{}.endGlyphIndex", nm)), (1, "value", &format!("{}.ppemX", nm)), (1, "value", &format!("{}.ppemY", nm)), (1, "version", &format!("{}.bitDepth", nm)), (1, "value", &format!("{}.flags", nm))]);
             if let Some(a) = self.u32(b) {
